@@ -66,6 +66,13 @@ Definition parent_fingerprint (nd : node) : res bytes :=
      | _ => [0; 0; 0; 0]
      end.
 
+(* __eq__ *)
+Definition node_eq (a b : node) : res bool :=
+  if negb (Bool.eqb (is_prv a) (is_prv b)) then Ok false else
+  do fa <- parent_fingerprint a; do fb <- parent_fingerprint b;
+  Ok ((be2z (nkey a) =? be2z (nkey b)) && beq_bytes (nchain a) (nchain b) && (ndepth a =? ndepth b)
+      && (nindex a =? nindex b) && Bool.eqb (ntestnet a) (ntestnet b) && beq_bytes fa fb).
+
 (* _serialize *)
 Definition serialize_node (nd : node) (key : bytes) (version : Z) : res bytes :=
   do v <- int_to_big_endian version 4;
